@@ -116,13 +116,18 @@ func newLayout(arena string, idx int, rng *rand.Rand, seed int64, vid string) *l
 		l.cwd = l.base
 	}
 
-	switch {
-	case idx < 3:
+	// root-configuration dimension: how ego.runtime.sandbox.path names the root
+	//   0 plain real path; 1 a symbolic link to the root; 2 a path through a symbolically linked parent;
+	//   further layouts add a trailing separator and a "/./" spelling
+	switch idx % 5 {
+	case 0:
 		l.setting = l.root
-	case idx%3 == 0:
+	case 1:
+		l.setting = filepath.Join(l.base, "rootlnk") // rootlnk -> root
+	case 2:
+		l.setting = filepath.Join(l.base, "parentlnk", "root") // parentlnk -> . (the directory holding the root)
+	case 3:
 		l.setting = l.root + "/"
-	case idx%3 == 1:
-		l.setting = filepath.Join(l.base, "rootlnk") // a link to the root, outside it
 	default:
 		l.setting = l.base + "/./root"
 	}
@@ -193,6 +198,10 @@ func newLayout(arena string, idx int, rng *rand.Rand, seed int64, vid string) *l
 		l.links[filepath.Join(l.base, "rootlnk")] = "root"
 	}
 
+	if strings.Contains(l.setting, "/parentlnk/") {
+		l.links[filepath.Join(l.base, "parentlnk")] = "."
+	}
+
 	return l
 }
 
@@ -217,7 +226,7 @@ func (l *layout) build() {
 		panic("c26 arena: suspicious base " + l.base)
 	}
 
-	for _, d := range []string{l.root, l.outside, l.evil, filepath.Join(l.base, "top.txt"), filepath.Join(l.base, "rootlnk")} {
+	for _, d := range []string{l.root, l.outside, l.evil, filepath.Join(l.base, "top.txt"), filepath.Join(l.base, "rootlnk"), filepath.Join(l.base, "parentlnk")} {
 		// chmod back anything a previous case may have made unreadable
 		_ = filepath.WalkDir(d, func(p string, de fs.DirEntry, err error) error {
 			if err == nil && de.IsDir() {
@@ -256,8 +265,10 @@ func (l *layout) build() {
 		}
 	}
 
-	if t, ok := l.links[filepath.Join(l.base, "rootlnk")]; ok {
-		must(os.Symlink(t, filepath.Join(l.base, "rootlnk")))
+	for _, n := range []string{"rootlnk", "parentlnk"} {
+		if t, ok := l.links[filepath.Join(l.base, n)]; ok {
+			must(os.Symlink(t, filepath.Join(l.base, n)))
+		}
 	}
 
 	c, n := v.content, v.names
